@@ -20,7 +20,7 @@ import time
 import numpy as np
 
 from runtime import oracles_C07_C09 as O
-from runtime.common import close, use_repo
+from runtime.common import close, use_repo, rot_frame
 
 RULE = ("intervals: all (n, min_segment_length, max_interval_length, growth_factor) of the box, non-trivial when >= 2 "
         "candidates are returned or min(M,n) == 2m (boundary); greedy kernel: explicit interval systems x maximisers x "
@@ -243,7 +243,7 @@ def check_detector(rec, inp):
         r, e = O.attempt(lambda: make_seeded_intervals(k, 2 * m, M, g))
         return e is None and len(r[0]) == 0
 
-    det, err = O.attempt(lambda: make_detector(inp, sc).fit(Xfit))
+    det, err = O.attempt(lambda: make_detector(inp, sc).fit(rot_frame(Xfit, 1)))
     if err is not None and O.permitted(err):
         return False, info
     if err is not None:
@@ -258,7 +258,7 @@ def check_detector(rec, inp):
     info["threshold"] = th
     if not (th >= 0):           # outside the quantifier (tuned on a user-defined score with negative values)
         return False, info
-    res, err = O.attempt(lambda: det.predict(X))
+    res, err = O.attempt(lambda: det.predict(rot_frame(X, 2)))
     if err is not None and O.permitted(err):
         return False, info
     if err is not None:
